@@ -15,12 +15,32 @@ type W struct {
 	sb   strings.Builder
 	line int // 1-based
 	col  int // 0-based, in runes
+	flat bool
+}
+
+// SetFlat switches the one-line mode: while it is on, every line end written becomes a blank, so the
+// text goes on one physical line (and the recorded positions say so).
+func (w *W) SetFlat(on bool) { w.flat = on }
+
+// Flat reports whether the one-line mode is on.
+func (w *W) Flat() bool { return w.flat }
+
+// LineComment is an end-of-line comment; in the one-line mode, where it would swallow the rest of the
+// unit, a block comment.
+func (w *W) LineComment(text string) string {
+	if w.flat {
+		return "/* " + text + " */"
+	}
+	return "// " + text
 }
 
 func NewW() *W { return &W{line: 1} }
 
 // S appends text.
 func (w *W) S(s string) *W {
+	if w.flat {
+		s = strings.ReplaceAll(s, "\n", " ")
+	}
 	w.sb.WriteString(s)
 	for len(s) > 0 {
 		r, n := utf8.DecodeRuneInString(s)
